@@ -1,5 +1,6 @@
 import PbVerif.Model.Proto
 import PbVerif.Model.Optim
+import PbVerif.Model.Collab
 namespace PbVerif.Drv.C17
 open PbVerif PbVerif.Proto PbVerif.Optim
 
@@ -11,7 +12,66 @@ def parseRegion? (s : String) : Option (Nat × Nat × Nat) :=
   | [a, b, c] => do some ((← a.toNat?), (← b.toNat?), (← c.toNat?))
   | _ => none
 
+/-! collab_pls: serialisation of plans and of resolved call traces -/
+open PbVerif.Collab in
+def showVal : Val → String
+  | .user t => s!"u:{t}"
+  | .inf => "inf"
+  | .true_ => "true"
+  | .fitWeights c => s!"fw:{c}"
+  | .fitAlpha c => s!"fa:{c}"
+  | .meanWeights cs => "mw:" ++ "+".intercalate (cs.map toString)
+  | .meanAlpha cs => "ma:" ++ "+".intercalate (cs.map toString)
+open PbVerif.Collab in
+def showKw (kw : Kw) : String :=
+  if kw.isEmpty then "-" else ",".intercalate (kw.map fun p => s!"{p.1}={showVal p.2}")
+open PbVerif.Collab in
+def showCall (c : Call) : String :=
+  (match c.data with | .mean => "mean" | .entry i => s!"e{i}") ++ "|" ++ showKw c.kw
+open PbVerif.Collab in
+def showPlan (p : Plan) : String :=
+  "#".intercalate ["ok", if p.calls.isEmpty then "-" else ";".intercalate (p.calls.map showCall), showNats p.results,
+    showVal p.avgWeights, (p.avgAlpha.map showVal).getD "none"]
+/-- the user's dictionary: keys only, the value under key `k` is the opaque `user k` -/
+def userKw? (s : String) : Option Collab.Kw :=
+  if s = "-" then some [] else some ((s.splitOn ",").map fun k => (k, Collab.Val.user k))
+def showArg : Collab.Arg → String
+  | .user t => s!"u:{t}"
+  | .inf => "inf"
+  | .true_ => "true"
+  | .arr v => "arr:" ++ showRats v
+def c17Mat? (s : String) : Option (List (List Rat)) :=
+  if s = "-" then some [] else (s.splitOn ";").mapM (parseList? parseRat?)
+def c17ShowMat (m : List (List Rat)) : String :=
+  if m.isEmpty then "-" else ";".intercalate (m.map showRats)
+/-- recorded fits `baseline~weights~alpha;…`, one per call -/
+def fits? (s : String) : Option (List Collab.Fit) :=
+  if s = "-" then some [] else (s.splitOn ";").mapM fun t =>
+    match t.splitOn "~" with
+    | [b, w, a] => do some ⟨← parseList? parseRat? b, ← parseList? parseRat? w, ← parseList? parseRat? a⟩
+    | _ => none
+
 def handle : List String → Option String
+  | ["c17.collabplan", twoD, known, ndim, method, k, avg, user] => do
+      -- `method.lower()` (ASCII names)
+      match Collab.collabCall (twoD == "1") (known == "1") (← ndim.toNat?) method.toLower (← k.toNat?) (avg == "1") (← userKw? user) with
+      | .error .attributeError => some "error#AttributeError"
+      | .error .keyError => some "error#KeyError"
+      | .error .valueError => some "error#ValueError"
+      | .ok p => some (showPlan p)
+  | ["c17.overridden", twoD, method] =>
+      some (",".intercalate (Collab.overridden (Collab.family (twoD == "1") method.toLower)))
+  | ["c17.mean", rows] => do some (showRats (Collab.meanRows (← c17Mat? rows)))
+  | ["c17.collabrun", twoD, method, avg, user, ds, fits] => do
+      let ds ← c17Mat? ds
+      let fits ← fits? fits
+      -- the wrapped method as an oracle column: the n-th fit returns what the real n-th fit returned
+      let f : Collab.Method := fun n _ _ => fits.getD n default
+      let out := Collab.runCollab f (twoD == "1") method.toLower (avg == "1") (← userKw? user) ds
+      let showRec (r : Collab.Rec) : String :=
+        showRats r.data ++ "~" ++ (if r.kw.isEmpty then "-" else "&".intercalate (r.kw.map fun p => s!"{p.1}={showArg p.2}"))
+      some ("#".intercalate [if out.trace.isEmpty then "-" else ";".intercalate (out.trace.map showRec), c17ShowMat out.baselines,
+        showArg out.avgWeights, (out.avgAlpha.map showArg).getD "none"])
   | ["c17.plan", n, regions] => do
       let n ← n.toNat?
       let rs ← (regions.splitOn ";").mapM parseRegion?
